@@ -777,6 +777,16 @@ def install(interp):
             return np.isnan(a, *rest, **kw)
         r(np.isnan, np_isnan)
 
+        def np_isfinite(interp, a, *rest, **kw):
+            # symbolic reals are finite numbers (A2); concrete entries are tested natively
+            if isinstance(a, Sym):
+                return True
+            if isinstance(a, np.ndarray) and contains_sym(a):
+                flat = [True if isinstance(x, Sym) else bool(np.isfinite(x)) for x in a.ravel().tolist()]
+                return np.array(flat, dtype=bool).reshape(a.shape)
+            return np.isfinite(a, *rest, **kw)
+        r(np.isfinite, np_isfinite)
+
         def np_argwhere(interp, a, *rest, **kw):
             if isinstance(a, np.ndarray) and contains_sym(a):
                 # which elements are true is decided per path (one fork per symbolic element)
